@@ -29,6 +29,11 @@ impl HSet for Range<u32> {
     }
     fn family(rng: &mut Rng) -> Self {
         // versions are 1,3,5 ; bounds are taken among 1,3,5 too: points on the doubled grid 0..=6
+        // half of the time any of the 128 canonical ranges over the bound values 1,3,5 (all shapes of
+        // touching / nested / inclusive-vs-exclusive ends occur), otherwise a "typical" constraint
+        if rng.chance(1, 2) {
+            return range_from_segs(&segs_of_mask(rng.below(128), 3));
+        }
         match rng.below(20) {
             0 => Range::empty(),
             1 | 2 | 3 => Range::full(),
